@@ -640,6 +640,49 @@ func checkProRata(r *Result) {
 			}
 			r.check(ok, "PRO-RATA", "(x/dispute/keeper.Keeper).CalculateReward # sum over three groups of own_g/global_g * VoterReward / groups", P.Pos(ret.Pos()), fmt.Sprintf("%d terms %s", len(p.terms), why))
 		}
+		checkTipsBlock(r, "PRO-RATA")
+	}
+}
+
+// checkTipsBlock: the claimant's share of the user group is own tips / group total; both are tips at the same
+// height only if the claimant's tips are read at the block the votes' tips were counted at (the dispute's block),
+// in CalculateReward and in the Vote handler alike. Otherwise the shares of one dispute add up to more (or less)
+// than the voter reward that was set aside.
+func checkTipsBlock(r *Result, rule string) {
+	P := r.P
+	tm := NewTermer()
+	fn := P.Func("(x/dispute/keeper.Keeper).CalculateReward")
+	if fn == nil {
+		r.broken("anchor CalculateReward does not resolve")
+		return
+	}
+	r.fn(FuncName(fn))
+	// own_user and global_user are tips at the same height: the claimant's tips are read at the block the
+	// votes' tips were counted at (the dispute's block), in CalculateReward and in the Vote handler alike
+	isDisputeBlock := func(t *Term) bool {
+		return strings.HasPrefix(t.Op, "field:x/dispute/types.Dispute.BlockNumber") && t.Contains("Keeper.Disputes")
+	}
+	n := 0
+	for _, cs := range P.CallSitesIn(fn) {
+		if cs.Callee == "(x/dispute/keeper.Keeper).GetUserTotalTips" {
+			n++
+			b := tm.Of(Arg(cs.Instr, 2))
+			r.check(isDisputeBlock(b), rule, "(x/dispute/keeper.Keeper).CalculateReward # the claimant's tips are read at the dispute's block (where the group total was counted)", P.Pos(cs.Pos()), "block: "+clip(b.String(), 160))
+		}
+	}
+	r.check(n == 1, rule, "(x/dispute/keeper.Keeper).CalculateReward # one read of the claimant's tips", P.Pos(fn.Pos()), fmt.Sprint(n))
+	if vh := P.Func("(x/dispute/keeper.msgServer).Vote"); vh == nil {
+		r.broken("anchor Vote does not resolve")
+	} else {
+		m := 0
+		for _, cs := range P.CallSitesIn(vh) {
+			if cs.Callee == "(x/dispute/keeper.Keeper).SetVoterTips" {
+				m++
+				b := tm.Of(Arg(cs.Instr, 3))
+				r.check(isDisputeBlock(b), rule, "(x/dispute/keeper.msgServer).Vote # the user group total counts tips at the dispute's block", P.Pos(cs.Pos()), "block: "+clip(b.String(), 160))
+			}
+		}
+		r.check(m == 1, rule, "(x/dispute/keeper.msgServer).Vote # one SetVoterTips site", P.Pos(vh.Pos()), fmt.Sprint(m))
 	}
 }
 
